@@ -275,188 +275,446 @@ Proof.
   induction a as [|x a IH]; intros b d; cbn [app]; [reflexivity|]. rewrite !last_cons. apply IH.
 Qed.
 
+(* ---- the relation extended by health checking ---- *)
+Lemma allowedR_false : forall o n, allowedR false o n = allowed o n.
+Proof. intros. unfold allowedR. cbn. apply orb_false_r. Qed.
+Lemma chain_okR_false : forall l o, chain_okR false o l = chain_ok o l.
+Proof. induction l as [|n l IH]; intro o; cbn [chain_okR chain_ok]; [reflexivity|]. rewrite allowedR_false, IH. reflexivity. Qed.
+Lemma allowedR_weaken : forall f g o n, (f = true -> g = true) -> allowedR f o n = true -> allowedR g o n = true.
+Proof.
+  intros f g o n Hfg H. unfold allowedR in *. apply orb_true_iff in H. apply orb_true_iff.
+  destruct H as [H|H]; [left; exact H|right]. destruct f; [|discriminate]. rewrite (Hfg eq_refl). exact H.
+Qed.
+Lemma chain_okR_weaken : forall f g l o, (f = true -> g = true) -> chain_okR f o l = true -> chain_okR g o l = true.
+Proof.
+  intros f g. induction l as [|n l IH]; intros o Hfg H; cbn [chain_okR] in *; [reflexivity|].
+  apply andb_prop in H. destruct H as [H1 H2]. rewrite (allowedR_weaken f g o n Hfg H1). cbn. apply IH; assumption.
+Qed.
+Lemma allowedR_spec : forall f o n, allowedR f o n = true <->
+  allowed o n = true \/ (f = true /\ o = 3 /\ (n = 2 \/ n = 1)).
+Proof.
+  intros f o n. unfold allowedR. rewrite orb_true_iff. split; intros [H|H]; auto; right.
+  - apply andb_prop in H. destruct H as [H H2]. apply andb_prop in H. destruct H as [H0 H1].
+    apply Z.eqb_eq in H1. apply orb_prop in H2. rewrite !Z.eqb_eq in H2. auto.
+  - destruct H as (-> & -> & [-> | ->]); reflexivity.
+Qed.
+Lemma allowedR_from4 : forall f n, allowedR f 4 n = false.
+Proof. intros. unfold allowedR, allowed. cbn. rewrite andb_false_r. reflexivity. Qed.
+
+Lemma chain_okR_app : forall f l o n, chain_okR f o (l ++ [n]) = chain_okR f o l && allowedR f (last l o) n.
+Proof.
+  intro f. induction l as [|x l IH]; intros o n; cbn [app chain_okR].
+  - cbn. rewrite andb_true_r. reflexivity.
+  - rewrite IH, last_cons. rewrite andb_assoc. reflexivity.
+Qed.
+Lemma chain_okR_split : forall f a b o, chain_okR f o (a ++ b) = chain_okR f o a && chain_okR f (last a o) b.
+Proof.
+  intro f. induction a as [|x a IH]; intros b o; cbn [app chain_okR].
+  - reflexivity.
+  - rewrite IH, last_cons, andb_assoc. reflexivity.
+Qed.
+Lemma chainR_nothing_after_4 : forall f l o r, chain_okR f o (l ++ 4 :: r) = true -> r = [].
+Proof.
+  intros f l o r H. rewrite chain_okR_split in H. apply andb_prop in H. destruct H as [_ H].
+  destruct r as [|y r]; [reflexivity|]. cbn [chain_okR] in H.
+  apply andb_prop in H. destruct H as [_ H]. apply andb_prop in H. destruct H as [H _].
+  rewrite allowedR_from4 in H. discriminate.
+Qed.
+Lemma chainR_mem4_last : forall f e o, chain_okR f o e = true -> mem 4 e = true -> last e o = 4.
+Proof.
+  intros f. induction e as [|x e IH]; intros o Hc Hm; [discriminate|].
+  cbn [chain_okR] in Hc. apply andb_prop in Hc. destruct Hc as [_ Hc]. rewrite last_cons.
+  rewrite mem_cons in Hm. destruct (mem 4 e) eqn:Me.
+  - apply IH; [exact Hc|reflexivity].
+  - rewrite orb_false_r in Hm. apply Z.eqb_eq in Hm. subst x.
+    destruct e as [|y e]; [reflexivity|]. cbn [chain_okR] in Hc. rewrite allowedR_from4 in Hc. discriminate.
+Qed.
+
 Definition invB (b : stB) : Prop :=
   (phase b = 1 -> ast b = 1) /\ (phase b = 2 -> ast b = 3) /\ (phase b = 0 \/ phase b = 1 \/ phase b = 2) /\
-  (ast b = 4 -> phase b = 0 /\ tr b = false) /\ (tr b = true -> ast b = 2) /\
+  (ast b = 4 -> phase b = 0 /\ tr b = false) /\
+  (tr b = true -> phase b = 0 /\ if hcf b then ast b = 1 \/ ast b = 2 \/ ast b = 3 else ast b = 2) /\
   (lbopen b = true -> dl b ++ q b = hist b) /\ (exists rest, hist b = dl b ++ rest) /\
-  chain_ok 0 (hist b) = true /\ ast b = last (hist b) 0 /\
-  (ccclosed b = true -> chs b = 4 /\ lbopen b = false /\ ast b = 4).
+  chain_okR (hcf b) 0 (hist b) = true /\ ast b = last (hist b) 0 /\
+  (ccclosed b = true -> chs b = 4 /\ lbopen b = false /\ ast b = 4) /\
+  (hph b <> 0 -> tr b = true /\ hcf b = true) /\ (ast b = 2 -> tr b = true).
 
-(* emitting an allowed transition keeps the history a chain *)
-Lemma emit_hist : forall b s, chain_ok 0 (hist b) = true -> ast b = last (hist b) 0 ->
-  (ast b = s \/ allowed (ast b) s = true) ->
-  chain_ok 0 (hist (emit b s)) = true /\ ast (emit b s) = last (hist (emit b s)) 0 /\ ast (emit b s) = s /\
-  (lbopen b = true -> dl b ++ q b = hist b -> dl (emit b s) ++ q (emit b s) = hist (emit b s)) /\
-  ((exists rest, hist b = dl b ++ rest) -> exists rest, hist (emit b s) = dl (emit b s) ++ rest) /\
-  phase (emit b s) = phase b /\ tr (emit b s) = tr b /\ lbopen (emit b s) = lbopen b /\
-  ccclosed (emit b s) = ccclosed b /\ chs (emit b s) = chs b /\ dl (emit b s) = dl b.
+(* every non-deliver step of the addrConn has the shape G: set the health checker's phase,
+   ac.transport, one updateConnectivityState, the connect goroutine's phase *)
+Definition G (b : stB) (hp : Z) (hm : bool) (t : bool) (s ph' : Z) : stB :=
+  set_phase (emit (set_tr (set_h b hp hm) t) s) ph'.
+Definition eff (b : stB) (s : Z) : list Z := if ast b =? s then [] else [s].
+
+Lemma G_ext : forall b hp hm t s ph', let b' := G b hp hm t s ph' in
+  hist b' = hist b ++ eff b s /\ q b' = q b ++ eff b s /\ dl b' = dl b /\ lbopen b' = lbopen b /\
+  ast b' = s /\ hcf b' = hcf b /\ ccclosed b' = ccclosed b /\ chs b' = chs b /\ tr b' = t /\
+  phase b' = ph' /\ hph b' = hp /\ hmsg b' = hm.
 Proof.
-  intros b s Hc Hl Ha. unfold emit. destruct (Z.eqb_spec (ast b) s) as [E|E].
-  - repeat split; auto.
-  - destruct Ha as [Ha|Ha]; [contradiction|]. cbn.
-    split; [rewrite chain_ok_app, Hc, <- Hl, Ha; reflexivity|].
-    split; [rewrite last_app1; reflexivity|]. split; [reflexivity|].
-    split; [intros _ Hq; rewrite app_assoc, Hq; reflexivity|].
-    split; [intros [rest Hr]; exists (rest ++ [s]); rewrite Hr, app_assoc; reflexivity|].
-    repeat split; reflexivity.
+  intros b hp hm t s ph'. unfold G, eff, emit, set_phase, set_tr, set_h. cbn [ast].
+  destruct (Z.eqb_spec (ast b) s) as [E|E]; cbn; rewrite ?app_nil_r; repeat split; auto.
 Qed.
 
-Lemma inv_emit_phase : forall b t s ph',
-  invB b -> (ast b = s \/ allowed (ast b) s = true) ->
+Ltac nrm := unfold G, kill_h, emit, set_phase, set_tr, set_h;
+  match goal with x : stB |- _ => destruct x end; cbn; rewrite ?Z.eqb_refl;
+  repeat match goal with |- context [if ?c then _ else _] => destruct c end; reflexivity.
+Lemma G_keep : forall x hp hm s, G x hp hm (tr x) s (phase x) = emit (set_h x hp hm) s.
+Proof. intros. nrm. Qed.
+Lemma G_ph : forall x s p, G x (hph x) (hmsg x) (tr x) s p = set_phase (emit x s) p.
+Proof. intros. nrm. Qed.
+Lemma G_tr : forall x t s p, G x (hph x) (hmsg x) t s p = set_phase (emit (set_tr x t) s) p.
+Proof. intros. nrm. Qed.
+Lemma G_kill_ph : forall x t s, G x 0 false t s (phase x) = emit (set_tr (kill_h x) t) s.
+Proof. intros. nrm. Qed.
+Lemma G_noemit : forall x hp hm t p, G x hp hm t (ast x) p = set_phase (set_h (set_tr x t) hp hm) p.
+Proof. intros. nrm. Qed.
+Lemma set_h_emit : forall x s hp hm, set_h (emit x s) hp hm = emit (set_h x hp hm) s.
+Proof. intros. nrm. Qed.
+
+Definition idle_ok (b : stB) (s : Z) (o : bop) : Prop :=
+  ast b = 3 -> s = 0 -> match o with BTimer | BReset => True | BServerClose _ => hmanaged b = true | _ => False end.
+
+(* what the bridge needs of one step: e = the updates it emits *)
+Definition stepfacts (b b' : stB) (o : bop) (e : list Z) : Prop :=
+  hist b' = hist b ++ e /\ dl b' = dl b /\ (lbopen b' = true -> q b' = q b ++ e /\ lbopen b = true) /\
+  (lbopen b = false -> lbopen b' = false) /\ ast b' = last e (ast b) /\
+  chain_okR (hmanaged b) (ast b) e = true /\ idle_rule (hmanaged b) (ast b) e o = true.
+
+Lemma hmanaged_hcf : forall b, hmanaged b = true -> hcf b = true.
+Proof. intros b H. unfold hmanaged in H. apply andb_prop in H. tauto. Qed.
+
+Lemma G_sound : forall b o hp hm t s ph',
+  invB b -> (ast b = s \/ allowedR (hmanaged b) (ast b) s = true) ->
   (ph' = 1 -> s = 1) -> (ph' = 2 -> s = 3) -> (ph' = 0 \/ ph' = 1 \/ ph' = 2) ->
-  (s = 4 -> ph' = 0 /\ t = false) -> (t = true -> s = 2) -> (ccclosed b = true -> s = 4) ->
-  invB (set_phase (emit (set_tr b t) s) ph').
+  (s = 4 -> ph' = 0 /\ t = false) ->
+  (t = true -> ph' = 0 /\ if hcf b then s = 1 \/ s = 2 \/ s = 3 else s = 2) ->
+  (ccclosed b = true -> s = 4) -> (hp <> 0 -> t = true /\ hcf b = true) -> (s = 2 -> t = true) ->
+  idle_ok b s o ->
+  invB (G b hp hm t s ph') /\ stepfacts b (G b hp hm t s ph') o (eff b s).
 Proof.
-  intros b t s ph' (I1&I2&I3&I4&I5&I6&I7&I8&I9&I10) Ha P1 P2 P3 P4 P5 P6.
-  destruct (emit_hist (set_tr b t) s I8 I9 Ha) as (E1&E2&E3&E4&E5&E6&E7&E8&E9&E10&E11).
-  unfold invB, set_phase; cbn [ast phase tr q lbopen dl hist chs ccclosed].
-  rewrite E3, E7, E8, E9, E10. cbn [set_tr tr lbopen ccclosed chs].
-  split; [exact P1|]. split; [exact P2|]. split; [exact P3|]. split; [exact P4|]. split; [exact P5|].
-  split; [intro Ho; apply E4; [exact Ho|apply I6; exact Ho]|]. split; [apply E5; exact I7|].
-  split; [exact E1|]. split; [rewrite <- E2; symmetry; exact E3|].
-  intro Hc. destruct (I10 Hc) as (C1&C2&C3). split; [exact C1|]. split; [exact C2|]. apply P6, Hc.
+  intros b o hp hm t s ph' (I1&I2&I3&I4&I5&I6&I7&I8&I9&I10&I11&I12) Ha P1 P2 P3 P4 P5 P6 P7 P8 P9.
+  destruct (G_ext b hp hm t s ph') as (E1&E2&E3&E4&E5&E6&E7&E8&E9&E10&E11&E12).
+  set (b' := G b hp hm t s ph') in *.
+  assert (Hch : chain_okR (hmanaged b) (ast b) (eff b s) = true).
+  { unfold eff. destruct (Z.eqb_spec (ast b) s) as [E|E]; [reflexivity|]. destruct Ha as [Ha|Ha]; [contradiction|].
+    cbn. rewrite Ha. reflexivity. }
+  split.
+  - unfold invB. rewrite E1, E2, E3, E4, E5, E6, E7, E8, E9, E10, E11.
+    split; [exact P1|]. split; [exact P2|]. split; [exact P3|]. split; [exact P4|]. split; [exact P5|].
+    split; [intro Ho; rewrite app_assoc, (I6 Ho); reflexivity|].
+    split; [destruct I7 as [rest Hr]; exists (rest ++ eff b s); rewrite Hr, app_assoc; reflexivity|].
+    split.
+    { rewrite chain_okR_split, I8, <- I9. cbn [andb]. eapply chain_okR_weaken; [|exact Hch]. apply hmanaged_hcf. }
+    split.
+    { unfold eff. destruct (Z.eqb_spec (ast b) s) as [E|E]; [rewrite app_nil_r, <- I9; symmetry; exact E|].
+      rewrite last_app1. reflexivity. }
+    split; [intro Hc; destruct (I10 Hc) as (C1&C2&C3); split; [exact C1|]; split; [exact C2|]; apply P6, Hc|].
+    split; [exact P7|exact P8].
+  - unfold stepfacts. rewrite E1, E2, E3, E4, E5.
+    split; [reflexivity|]. split; [reflexivity|]. split; [intro Ho; split; [reflexivity|exact Ho]|].
+    split; [auto|]. split.
+    { unfold eff. destruct (Z.eqb_spec (ast b) s) as [E|E]; [symmetry; exact E|reflexivity]. }
+    split; [exact Hch|].
+    unfold idle_rule, eff. destruct (Z.eqb_spec (ast b) 3) as [A3|A3]; cbn [andb]; [|reflexivity].
+    destruct (Z.eqb_spec (ast b) s) as [E|E]; [reflexivity|]. destruct s as [|p|p]; try reflexivity.
+    specialize (P9 A3 eq_refl). destruct o; try contradiction; try reflexivity. exact P9.
 Qed.
 
-Lemma invB_same : forall b, invB b -> invB (set_phase (emit (set_tr b (tr b)) (ast b)) (phase b)).
+Lemma same_sound : forall b o, invB b -> invB b /\ stepfacts b b o [].
 Proof.
-  intros b H. pose proof H as (I1&I2&I3&I4&I5&I6&I7&I8&I9&I10).
-  apply inv_emit_phase; auto. intro Hc. apply I10, Hc.
+  intros b o H. split; [exact H|]. unfold stepfacts. rewrite !app_nil_r. cbn.
+  repeat split; auto. unfold idle_rule. destruct (ast b =? 3); reflexivity.
 Qed.
 
-Lemma bstep_inv : forall b o, invB b -> invB (bstep b o).
+Lemma teardown_sound : forall b o, invB b -> (o = BShutdown \/ o = BClose) ->
+  invB (teardown b) /\ stepfacts b (teardown b) o (eff b 4).
 Proof.
-  intros b o H. pose proof H as (I1&I2&I3&I4&I5&I6&I7&I8&I9&I10).
-  destruct o; cbn [bstep]; try exact H.
-  - (* connect *)
-    destruct (Z.eqb_spec (ast b) 0) as [E0|E0]; cbn [andb]; [|exact H].
-    destruct (Z.eqb_spec (phase b) 0) as [P0|P0]; [|exact H].
-    replace (emit b 1) with (emit (set_tr b (tr b)) 1) by (destruct b; reflexivity).
-    apply inv_emit_phase; auto; try (intros; lia).
-    + right. rewrite E0. reflexivity.
-    + intro T. apply I5 in T. lia.
-    + intro Hc. destruct (I10 Hc) as (_&_&?). lia.
-  - (* dial result *)
-    destruct (Z.eqb_spec (phase b) 1) as [P1|P1]; [|exact H]. specialize (I1 P1).
-    destruct ok.
-    + apply inv_emit_phase; auto; try (intros; lia).
-      * right. rewrite I1. reflexivity.
-      * intro Hc. destruct (I10 Hc) as (_&_&?). lia.
-    + replace (emit b 3) with (emit (set_tr b (tr b)) 3) by (destruct b; reflexivity).
-      apply inv_emit_phase; auto; try (intros; lia).
-      * right. rewrite I1. reflexivity.
-      * intro T. apply I5 in T. lia.
-      * intro Hc. destruct (I10 Hc) as (_&_&?). lia.
-  - (* server closes *)
-    destruct (tr b) eqn:T; cbn [andb]; [|exact H]. destruct (Z.eqb_spec (ast b) 4) as [E4|E4]; [exact H|]. cbn [negb].
-    specialize (I5 eq_refl).
-    replace (emit (set_tr b false) 0) with (set_phase (emit (set_tr b false) 0) (phase b)) by (unfold emit, set_phase; cbn; destruct (ast b =? 0); reflexivity).
-    assert (P0 : phase b = 0) by (destruct I3 as [?|[P|P]]; [assumption|apply I1 in P; lia|apply I2 in P; lia]).
-    rewrite P0. apply inv_emit_phase; auto; try (intros; lia); try (intros; discriminate).
-    + right. rewrite I5. reflexivity.
-    + intro Hc. destruct (I10 Hc) as (_&_&?). lia.
-  - (* timer *)
-    destruct (Z.eqb_spec (phase b) 2) as [P2|P2]; [|exact H]. specialize (I2 P2).
-    replace (emit b 0) with (emit (set_tr b (tr b)) 0) by (destruct b; reflexivity).
-    apply inv_emit_phase; auto; try (intros; lia).
-    + right. rewrite I2. reflexivity.
-    + intro T. apply I5 in T. lia.
-    + intro Hc. destruct (I10 Hc) as (_&_&?). lia.
-  - (* SubConn.Shutdown *)
-    unfold teardown. destruct (Z.eqb_spec (ast b) 4) as [E4|E4]; [exact H|].
-    apply inv_emit_phase; auto; try (intros; lia); try (intros; discriminate).
-    right. apply allowed_spec. repeat split; auto; intros; lia.
-  - (* ClientConn.Close *)
-    destruct (ccclosed b) eqn:Hcc; [exact H|].
-    assert (Ht : invB (teardown b)).
-    { unfold teardown. destruct (Z.eqb_spec (ast b) 4) as [E4|E4]; [exact H|].
-      apply inv_emit_phase; auto; try (intros; lia); try (intros; discriminate).
-      right. apply allowed_spec. repeat split; auto; intros; lia. }
-    assert (H4 : ast (teardown b) = 4).
-    { unfold teardown. destruct (Z.eqb_spec (ast b) 4) as [E4|E4]; [exact E4|].
-      unfold set_phase, emit; cbn. destruct (Z.eqb_spec (ast b) 4); [contradiction|reflexivity]. }
-    destruct Ht as (J1&J2&J3&J4&J5&J6&J7&J8&J9&J10).
-    unfold invB; cbn [ast phase tr q lbopen dl hist chs ccclosed].
-    repeat (split; [assumption|]). split; [intro; discriminate|]. repeat (split; [assumption|]).
-    intros _. auto.
-  - (* reset back-off *)
-    destruct (Z.eqb_spec (phase b) 2) as [P2|P2]; [|exact H]. specialize (I2 P2).
-    replace (emit b 0) with (emit (set_tr b (tr b)) 0) by (destruct b; reflexivity).
-    apply inv_emit_phase; auto; try (intros; lia).
-    + right. rewrite I2. reflexivity.
-    + intro T. apply I5 in T. lia.
-    + intro Hc. destruct (I10 Hc) as (_&_&?). lia.
-  - (* updateAddrs *)
-    destruct fresh; [|exact H]. destruct (Z.eqb_spec (ast b) 2) as [E2|E2]; [|exact H].
-    apply inv_emit_phase; auto; try (intros; lia); try (intros; discriminate).
-    + right. rewrite E2. reflexivity.
-    + intro Hc. destruct (I10 Hc) as (_&_&?). lia.
-  - (* deliver *)
-    destruct (q b) as [|s r] eqn:Hq; [exact H|].
-    destruct (lbopen b) eqn:Ho.
-    + unfold invB; cbn [ast phase tr q lbopen dl hist chs ccclosed].
-      repeat (split; [assumption|]).
-      split; [intros _; rewrite <- app_assoc; cbn; apply I6; reflexivity|].
-      split; [exists r; rewrite <- app_assoc; cbn; symmetry; apply I6; reflexivity|].
-      repeat (split; [assumption|]). intro Hc. destruct (I10 Hc) as (_&?&_). discriminate.
-    + unfold invB; cbn [ast phase tr q lbopen dl hist chs ccclosed].
-      repeat (split; [assumption|]). split; [intro; discriminate|]. repeat (split; [assumption|]). exact I10.
+  intros b o H Ho. pose proof H as (I1&I2&I3&I4&I5&I6&I7&I8&I9&I10&I11&I12).
+  destruct (Z.eqb_spec (ast b) 4) as [E4|E4].
+  - unfold teardown, eff. destruct (Z.eqb_spec (ast b) 4); [|contradiction]. apply same_sound, H.
+  - replace (teardown b) with (G b 0 false false 4 0)
+      by (unfold teardown; destruct (Z.eqb_spec (ast b) 4); [contradiction|reflexivity]).
+    apply G_sound; auto; try (intros; lia); try (intros; discriminate); try (intros; contradiction).
+    right. apply allowedR_spec. left. apply allowed_spec. repeat split; auto; intros; lia.
 Qed.
 
-Lemma stB0_inv : invB stB0.
-Proof.
-  unfold invB, stB0; cbn. repeat split; auto; try (intros; discriminate). exists []. reflexivity.
-Qed.
-
-Lemma brun_inv : forall l b, invB b -> invB (brun b l).
-Proof. induction l as [|o l IH]; intros b H; cbn; [exact H|]. apply IH, bstep_inv, H. Qed.
-
-(* "sub-channel states only take allowed transitions": the sequence of all state updates the
-   addrConn ever emits, starting from IDLE, is a chain of allowed transitions *)
-Theorem ac_transitions_allowed : forall l, chain_ok 0 (hist (brun stB0 l)) = true.
-Proof. intro l. destruct (brun_inv l _ stB0_inv) as (_&_&_&_&_&_&_&H&_). exact H. Qed.
-
-(* "updates reach the LB policy in the order they happened": what was delivered is a prefix
-   of what was emitted; and everything emitted is delivered or still queued while the
-   balancer wrapper is open *)
-Theorem lb_delivery_in_order : forall l, let b := brun stB0 l in
-  (exists rest, hist b = dl b ++ rest) /\ (lbopen b = true -> dl b ++ q b = hist b).
-Proof. intro l. destruct (brun_inv l _ stB0_inv) as (_&_&_&_&_&H6&H7&_). split; assumption. Qed.
-
-(* "none arrive after the subchannel is shut down" *)
-Theorem nothing_delivered_after_shutdown : forall l pre post, dl (brun stB0 l) = pre ++ 4 :: post -> post = [].
-Proof.
-  intros l pre post Hd. destruct (brun_inv l _ stB0_inv) as (_&_&_&_&_&_&(rest&Hr)&Hc&_).
-  rewrite Hr, Hd, chain_ok_split in Hc. apply andb_prop in Hc. destruct Hc as [Hc _].
-  eapply chain_nothing_after_4; eauto.
-Qed.
-
-(* "leaves TRANSIENT_FAILURE only to IDLE after backoff or to SHUTDOWN", "nothing leaves
-   SHUTDOWN", "READY only from CONNECTING", per step in every reachable state *)
 Lemma teardown_ast : forall b, ast (teardown b) = 4.
 Proof.
   intro b. unfold teardown. destruct (Z.eqb_spec (ast b) 4) as [E|E]; [exact E|].
   unfold set_phase, emit; cbn. destruct (Z.eqb_spec (ast b) 4); [contradiction|reflexivity].
 Qed.
 
-Theorem tf_exits : forall l o, let b := brun stB0 l in ast b = 3 -> ast (bstep b o) <> 3 ->
-  (ast (bstep b o) = 0 /\ (o = BTimer \/ o = BReset)) \/ (ast (bstep b o) = 4 /\ (o = BShutdown \/ o = BClose)).
+Lemma managed_ast : forall b, invB b -> hmanaged b = true -> phase b = 0 /\ (ast b = 1 \/ ast b = 2 \/ ast b = 3) /\ tr b = true /\ hcf b = true.
 Proof.
-  intros l o b H3 Hn. pose proof (brun_inv l _ stB0_inv) as (I1&I2&I3&I4&I5&I6&I7&I8&I9&I10). fold b in I1, I2, I3, I4, I5, I10.
+  intros b (I1&I2&I3&I4&I5&_) H. unfold hmanaged in H. apply andb_prop in H. destruct H as [Hh Ht].
+  destruct (I5 Ht) as [P A]. rewrite Hh in A. auto.
+Qed.
+
+Ltac sc := try solve [auto]; try solve [intros; lia]; try solve [intros; discriminate];
+  try solve [intros; congruence];
+  try solve [unfold idle_ok; intros; first [lia | discriminate | exact I]].
+(* the transition is in the un-extended relation *)
+Ltac strict := right; apply allowedR_spec; left; apply allowed_spec; repeat split; intros; lia.
+
+Ltac fin :=
+  first [ solve [strict]
+        | solve [intros _; match goal with Hh : hcf _ = _ |- _ => rewrite Hh end; auto]
+        | solve [let Hc := fresh in intro Hc; match goal with Hcc : ccclosed _ = true -> ast _ = 4 |- _ => specialize (Hcc Hc) end; lia]
+        | solve [let T := fresh in intro T; match goal with Htr : tr _ = true -> _ /\ _ |- _ => destruct (Htr T) end; lia] ].
+
+Lemma bstep_sound : forall b o, invB b -> o <> BDeliver ->
+  invB (bstep b o) /\ exists e, stepfacts b (bstep b o) o e.
+Proof.
+  intros b o H Hnd. pose proof H as (I1&I2&I3&I4&I5&I6&I7&I8&I9&I10&I11&I12).
+  assert (Hsame : invB b /\ exists e, stepfacts b b o e) by (destruct (same_sound b o H); eauto).
+  assert (HG : forall hp hm t s ph', invB (G b hp hm t s ph') /\ stepfacts b (G b hp hm t s ph') o (eff b s) ->
+                 invB (G b hp hm t s ph') /\ exists e, stepfacts b (G b hp hm t s ph') o e) by (intros; split; [tauto|eexists; apply H0]).
+  assert (Hcc : ccclosed b = true -> ast b = 4) by (intro Hc; destruct (I10 Hc) as (_&_&?); assumption).
+  assert (Htr : tr b = true -> phase b = 0 /\ (ast b = 1 \/ ast b = 2 \/ ast b = 3)).
+  { intro T. destruct (I5 T) as [P A]. split; [exact P|]. destruct (hcf b); auto. }
+  destruct o; cbn [bstep]; try exact Hsame; try congruence.
+  - (* connect *)
+    destruct (Z.eqb_spec (ast b) 0) as [E0|E0]; cbn [andb]; [|exact Hsame].
+    destruct (Z.eqb_spec (phase b) 0) as [P0|P0]; [|exact Hsame].
+    rewrite <- G_ph.
+    apply HG, G_sound; sc; fin.
+  - (* dial result *)
+    destruct (Z.eqb_spec (phase b) 1) as [P1|P1]; [|exact Hsame]. specialize (I1 P1).
+    assert (T : tr b = false) by (destruct (tr b) eqn:T; [destruct (Htr eq_refl); lia|reflexivity]).
+    destruct ok.
+    + destruct (hcf b) eqn:Hh.
+      * rewrite <- G_noemit.
+        apply HG, G_sound; sc; fin.
+      * rewrite <- G_tr.
+        apply HG, G_sound; sc; fin.
+    + rewrite <- G_ph.
+      apply HG, G_sound; sc; fin.
+  - (* connection lost / GOAWAY *)
+    destruct (tr b) eqn:T; cbn [andb]; [|exact Hsame]. destruct (Z.eqb_spec (ast b) 4) as [E4|E4]; [exact Hsame|]. cbn [negb].
+    destruct (Htr eq_refl) as [P0 A].
+    rewrite <- G_kill_ph.
+    apply HG, G_sound; sc; try fin.
+    intros A3 _. unfold hmanaged. rewrite T. destruct (hcf b) eqn:Hh; [reflexivity|]. destruct (I5 eq_refl) as [_ A2]. lia.
+  - (* timer *)
+    destruct (Z.eqb_spec (phase b) 2) as [P2|P2]; [|exact Hsame]. specialize (I2 P2).
+    rewrite <- G_ph.
+    apply HG, G_sound; sc; fin.
+  - (* SubConn.Shutdown *)
+    destruct (teardown_sound b BShutdown H (or_introl eq_refl)). eauto.
+  - (* ClientConn.Close *)
+    destruct (ccclosed b) eqn:Hcl; [exact Hsame|].
+    destruct (teardown_sound b BClose H (or_intror eq_refl)) as [Ht Hf].
+    pose proof (teardown_ast b) as H4.
+    destruct Ht as (J1&J2&J3&J4&J5&J6&J7&J8&J9&J10&J11&J12).
+    split.
+    + unfold invB; cbn [ast phase tr q lbopen dl hist chs ccclosed hcf hph hmsg].
+      repeat (split; [assumption|]). split; [intro; discriminate|]. repeat (split; [assumption|]).
+      split; [intros _; auto|]. split; assumption.
+    + exists (eff b 4). destruct Hf as (F1&F2&F3&F4&F5&F6&F7). unfold stepfacts. cbn [ast phase tr q lbopen dl hist chs ccclosed hcf hph hmsg].
+      split; [exact F1|]. split; [exact F2|]. split; [intro; discriminate|]. split; [reflexivity|].
+      split; [exact F5|]. split; [exact F6|exact F7].
+  - (* reset back-off *)
+    destruct (Z.eqb_spec (phase b) 2) as [P2|P2]; [|exact Hsame]. specialize (I2 P2).
+    rewrite <- G_ph.
+    apply HG, G_sound; sc; fin.
+  - (* updateAddrs *)
+    destruct fresh; [|exact Hsame].
+    destruct ((ast b =? 2) || (ast b =? 1)) eqn:E21; [|exact Hsame].
+    apply orb_prop in E21. rewrite !Z.eqb_eq in E21.
+    change (set_phase (emit (set_tr (kill_h b) false) 1) 1) with (G b 0 false false 1 1).
+    apply HG, G_sound; sc; try fin.
+    destruct E21 as [E|E]; [strict|left; exact E].
+  - (* health report *)
+    destruct (Z.eqb_spec (hph b) 1) as [Hp|Hp]; [|exact Hsame].
+    destruct (I11 ltac:(lia)) as [T Hh]. destruct (Htr T) as [P0 A].
+    assert (Hm : hmanaged b = true) by (unfold hmanaged; rewrite T, Hh; reflexivity).
+    assert (HA : forall s, s = 1 \/ s = 2 \/ s = 3 -> ast b = s \/ allowedR (hmanaged b) (ast b) s = true).
+    { intros s Hs. rewrite Hm. destruct A as [A|[A|A]]; rewrite A; destruct Hs as [->|[-> | ->]];
+        first [left; reflexivity|right; reflexivity]. }
+    assert (HT : forall s, s = 1 \/ s = 2 \/ s = 3 -> tr b = true -> phase b = 0 /\ if hcf b then s = 1 \/ s = 2 \/ s = 3 else s = 2).
+    { intros s Hs _. rewrite Hh. auto. }
+    assert (HC : forall s, s = 1 \/ s = 2 \/ s = 3 -> ccclosed b = true -> s = 4).
+    { intros s Hs Hc. specialize (Hcc Hc). lia. }
+    destruct (Z.eqb_spec k 1) as [K1|K1].
+    { rewrite <- G_keep.
+      apply HG, G_sound; sc; first [apply HA|apply HT|apply HC]; auto. }
+    destruct (Z.eqb_spec k 0) as [K0|K0].
+    { rewrite <- G_keep.
+      apply HG, G_sound; sc; first [apply HA|apply HT|apply HC]; auto. }
+    destruct (Z.eqb_spec k 3) as [K3|K3].
+    { rewrite <- G_keep.
+      apply HG, G_sound; sc; first [apply HA|apply HT|apply HC]; auto. }
+    destruct (Z.eqb_spec k 2) as [K2|K2]; [|exact Hsame].
+    destruct (hmsg b) eqn:Hmsg.
+    2:{ rewrite set_h_emit, <- G_keep.
+        apply HG, G_sound; sc; first [apply HA|apply HT|apply HC]; auto. }
+    (* TRANSIENT_FAILURE, then CONNECTING at once: two updates *)
+    set (b1 := G b (hph b) (hmsg b) (tr b) 3 (phase b)).
+    assert (Eb1 : emit b 3 = b1) by (unfold b1; rewrite G_ph; unfold set_phase, emit; destruct (ast b =? 3); destruct b; reflexivity).
+    rewrite Eb1.
+    destruct (G_ext b (hph b) (hmsg b) (tr b) 3 (phase b)) as (X1&X2&X3&X4&X5&X6&X7&X8&X9&X10&X11&X12). fold b1 in X1, X2, X3, X4, X5, X6, X7, X8, X9, X10, X11, X12.
+    rewrite <- G_keep, X9, X10.
+    assert (S1 : invB b1 /\ stepfacts b b1 (BHealth k) (eff b 3)).
+    { unfold b1. apply G_sound; sc; first [apply HA|apply HT|apply HC]; auto. }
+    destruct S1 as [Hi1 (F1&F2&F3&F4&F5&F6&F7)].
+    assert (Hm1 : hmanaged b1 = true) by (unfold hmanaged; rewrite X6, X9, T, Hh; reflexivity).
+    assert (S2 : invB (G b1 1 false (tr b) 1 (phase b)) /\ stepfacts b1 (G b1 1 false (tr b) 1 (phase b)) (BHealth k) (eff b1 1)).
+    { apply G_sound; sc.
+      - right. rewrite Hm1, X5. reflexivity.
+      - intros _. rewrite X6, Hh. auto.
+      - rewrite X7. intro Hc. specialize (Hcc Hc). lia.
+      - rewrite X6. auto. }
+    destruct S2 as [Hi2 (N1&N2&N3&N4&N5&N6&N7)]. split; [exact Hi2|].
+    exists (eff b 3 ++ eff b1 1). unfold stepfacts.
+    split; [rewrite N1, F1, app_assoc; reflexivity|]. split; [rewrite N2, F2; reflexivity|].
+    split; [intro Ho; destruct (N3 Ho) as [Q1 O1]; destruct (F3 O1) as [Q2 O2]; split; [rewrite Q1, Q2, app_assoc; reflexivity|exact O2]|].
+    split; [auto|]. split; [rewrite N5, F5, last_app; reflexivity|].
+    split; [rewrite chain_okR_split, F6, <- F5; cbn [andb]; rewrite Hm; rewrite Hm1 in N6; exact N6|].
+    unfold idle_rule. destruct (Z.eqb_spec (ast b) 3) as [A3|A3]; cbn [andb]; [|reflexivity].
+    unfold eff at 1. rewrite A3. cbn [Z.eqb Pos.eqb app]. unfold eff. rewrite X5. cbn. reflexivity.
+  - (* the checker's back-off ends *)
+    destruct (Z.eqb_spec (hph b) 2) as [Hp|Hp]; [|exact Hsame].
+    destruct (I11 ltac:(lia)) as [T Hh]. destruct (Htr T) as [P0 A].
+    assert (Hm : hmanaged b = true) by (unfold hmanaged; rewrite T, Hh; reflexivity).
+    rewrite <- G_keep.
+    apply HG, G_sound; sc.
+    + rewrite Hm. destruct A as [A|[A|A]]; rewrite A; first [left; reflexivity|right; reflexivity].
+    + intros _. rewrite Hh. auto.
+    + intro Hc. specialize (Hcc Hc). lia.
+Qed.
+
+Lemma bstep_inv : forall b o, invB b -> invB (bstep b o).
+Proof.
+  intros b o H. destruct o; try (apply bstep_sound; [exact H|discriminate]).
+  pose proof H as (I1&I2&I3&I4&I5&I6&I7&I8&I9&I10&I11&I12). cbn [bstep].
+  destruct (q b) as [|s r] eqn:Hq; [exact H|].
+  destruct (lbopen b) eqn:Ho.
+  + unfold invB; cbn [ast phase tr q lbopen dl hist chs ccclosed hcf hph hmsg].
+    repeat (split; [assumption|]).
+    split; [intros _; rewrite <- app_assoc; cbn; apply I6; reflexivity|].
+    split; [exists r; rewrite <- app_assoc; cbn; symmetry; apply I6; reflexivity|].
+    repeat (split; [assumption|]). split; [intro Hc; destruct (I10 Hc) as (_&?&_); discriminate|]. split; assumption.
+  + unfold invB; cbn [ast phase tr q lbopen dl hist chs ccclosed hcf hph hmsg].
+    repeat (split; [assumption|]). split; [intro; discriminate|]. repeat (split; [assumption|]). assumption.
+Qed.
+
+Lemma emit_hcf : forall b s, hcf (emit b s) = hcf b.
+Proof. intros. unfold emit. destruct (ast b =? s); reflexivity. Qed.
+Lemma emit_ast : forall b s, ast (emit b s) = s.
+Proof. intros. unfold emit. destruct (Z.eqb_spec (ast b) s); [assumption|reflexivity]. Qed.
+Lemma teardown_hcf : forall b, hcf (teardown b) = hcf b.
+Proof. intro b. unfold teardown. destruct (ast b =? 4); [reflexivity|]. cbn [set_phase hcf]. rewrite emit_hcf. reflexivity. Qed.
+
+Lemma bstep_hcf : forall b o, hcf (bstep b o) = hcf b.
+Proof.
+  intros b o. destruct o; cbn [bstep]; try reflexivity;
+    try (destruct (q b); [reflexivity|]; destruct (lbopen b); reflexivity);
+    repeat match goal with |- context [if ?c then _ else _] => destruct c eqn:? end;
+    cbn [set_phase set_h set_tr kill_h hcf]; rewrite ?emit_hcf; cbn [set_phase set_h set_tr kill_h hcf]; rewrite ?emit_hcf;
+    cbn [set_phase set_h set_tr kill_h hcf]; rewrite ?teardown_hcf; congruence.
+Qed.
+
+Lemma stBi_inv : forall h, invB (stBi h).
+Proof.
+  intro h. unfold invB, stBi; cbn. repeat split; auto; try (intros; discriminate); try (intros; lia).
+  exists []. reflexivity.
+Qed.
+Lemma stB0_inv : invB stB0.
+Proof. apply stBi_inv. Qed.
+
+Lemma brun_inv : forall l b, invB b -> invB (brun b l).
+Proof. induction l as [|o l IH]; intros b H; cbn; [exact H|]. apply IH, bstep_inv, H. Qed.
+Lemma brun_hcf : forall l b, hcf (brun b l) = hcf b.
+Proof. induction l as [|o l IH]; intro b; cbn; [reflexivity|]. rewrite IH. apply bstep_hcf. Qed.
+
+(* "sub-channel states only take allowed transitions": the sequence of all state updates the
+   addrConn ever emits, starting from IDLE, is a chain of allowed transitions (no client-side
+   health checking) *)
+Theorem ac_transitions_allowed : forall l, chain_ok 0 (hist (brun stB0 l)) = true.
+Proof.
+  intro l. destruct (brun_inv l _ stB0_inv) as (_&_&_&_&_&_&_&H&_).
+  rewrite brun_hcf in H. cbn in H. rewrite chain_okR_false in H. exact H.
+Qed.
+(* with health checking configured: a chain of the relation extended by gRFC A17 ... *)
+Theorem ac_transitions_allowed_health : forall h l, chain_okR h 0 (hist (brun (stBi h) l)) = true.
+Proof. intros h l. destruct (brun_inv l _ (stBi_inv h)) as (_&_&_&_&_&_&_&H&_). rewrite brun_hcf in H. exact H. Qed.
+(* ... and the extension is used only by steps taken while the health checker manages the
+   state (health checking configured and a transport present): every other step emits
+   updates that continue the un-extended chain, IDLE after TRANSIENT_FAILURE only when the
+   back-off ends *)
+Theorem strict_unless_health_managed : forall h l o, let b := brun (stBi h) l in
+  o <> BDeliver -> hmanaged b = false ->
+  exists e, hist (bstep b o) = hist b ++ e /\ chain_ok (ast b) e = true /\ idle_rule false (ast b) e o = true.
+Proof.
+  intros h l o b Ho Hm. destruct (bstep_sound b o (brun_inv l _ (stBi_inv h)) Ho) as [_ (e & F1&_&_&_&_&F6&F7)].
+  exists e. rewrite Hm, chain_okR_false in F6. rewrite Hm in F7. auto.
+Qed.
+
+(* "updates reach the LB policy in the order they happened": what was delivered is a prefix
+   of what was emitted; and everything emitted is delivered or still queued while the
+   balancer wrapper is open *)
+Theorem lb_delivery_in_order : forall h l, let b := brun (stBi h) l in
+  (exists rest, hist b = dl b ++ rest) /\ (lbopen b = true -> dl b ++ q b = hist b).
+Proof. intros h l. destruct (brun_inv l _ (stBi_inv h)) as (_&_&_&_&_&H6&H7&_). split; assumption. Qed.
+
+(* "none arrive after the subchannel is shut down" *)
+Theorem nothing_delivered_after_shutdown : forall h l pre post, dl (brun (stBi h) l) = pre ++ 4 :: post -> post = [].
+Proof.
+  intros h l pre post Hd. destruct (brun_inv l _ (stBi_inv h)) as (_&_&_&_&_&_&(rest&Hr)&Hc&_).
+  rewrite Hr, Hd, chain_okR_split in Hc. apply andb_prop in Hc. destruct Hc as [Hc _].
+  eapply chainR_nothing_after_4; eauto.
+Qed.
+
+Ltac astc := unfold kill_h; repeat (cbn [ast set_phase set_tr set_h] || rewrite emit_ast).
+
+(* "leaves TRANSIENT_FAILURE only to IDLE after backoff or to SHUTDOWN"; what client-side
+   health checking adds (third alternative, only while the checker manages the state) *)
+Lemma tf_exits_inv : forall b o, invB b -> ast b = 3 -> ast (bstep b o) <> 3 ->
+  (ast (bstep b o) = 0 /\ (o = BTimer \/ o = BReset)) \/ (ast (bstep b o) = 4 /\ (o = BShutdown \/ o = BClose)) \/
+  (hmanaged b = true /\
+   ((ast (bstep b o) = 2 /\ (o = BHealth 1 \/ o = BHealth 3)) \/
+    (ast (bstep b o) = 1 /\ (o = BHealth 2 \/ o = BHBackoff)) \/
+    (ast (bstep b o) = 0 /\ exists g, o = BServerClose g))).
+Proof.
+  intros b o (I1&I2&I3&I4&I5&I6&I7&I8&I9&I10&I11&I12) H3 Hn.
+  assert (Hman : tr b = true -> hmanaged b = true).
+  { intro T. unfold hmanaged. rewrite T. destruct (I5 T) as [_ A]. destruct (hcf b); [reflexivity|lia]. }
   destruct o; cbn [bstep] in *.
   - rewrite H3 in Hn. cbn in Hn. contradiction.
   - destruct (Z.eqb_spec (phase b) 1) as [P|P]; [apply I1 in P; lia|contradiction].
-  - destruct (tr b) eqn:T; [specialize (I5 eq_refl); lia|]. cbn in Hn. contradiction.
-  - destruct (Z.eqb_spec (phase b) 2) as [P|P]; [|contradiction]. left. split; [|auto].
-    unfold set_phase, emit; cbn. rewrite H3. reflexivity.
-  - right. split; [apply teardown_ast|auto].
-  - right. destruct (ccclosed b) eqn:Hc; [destruct (I10 eq_refl) as (_&_&?); lia|]. split; [|auto].
+  - destruct (tr b) eqn:T; [|cbn in Hn; contradiction]. rewrite H3 in *. cbn [Z.eqb Pos.eqb negb andb] in *.
+    right; right. split; [auto|]. right; right. split; [astc; reflexivity|eauto].
+  - destruct (Z.eqb_spec (phase b) 2) as [P|P]; [|contradiction]. left. split; [astc; reflexivity|auto].
+  - right; left. split; [apply teardown_ast|auto].
+  - right; left. destruct (ccclosed b) eqn:Hc; [destruct (I10 eq_refl) as (_&_&?); lia|]. split; [|auto].
     cbn. apply teardown_ast.
-  - destruct (Z.eqb_spec (phase b) 2) as [P|P]; [|contradiction]. left. split; [|auto].
-    unfold set_phase, emit; cbn. rewrite H3. reflexivity.
+  - destruct (Z.eqb_spec (phase b) 2) as [P|P]; [|contradiction]. left. split; [astc; reflexivity|auto].
   - destruct fresh; [|contradiction]. rewrite H3 in Hn. cbn in Hn. contradiction.
+  - destruct (Z.eqb_spec (hph b) 1) as [Hp|Hp]; [|contradiction].
+    destruct (I11 ltac:(lia)) as [T _]. right; right. split; [auto|].
+    destruct (Z.eqb_spec k 1) as [->|K1]; [left; split; [astc; reflexivity|auto]|].
+    destruct (Z.eqb_spec k 0) as [->|K0]; [exfalso; apply Hn; astc; reflexivity|].
+    destruct (Z.eqb_spec k 3) as [->|K3]; [left; split; [astc; reflexivity|auto]|].
+    destruct (Z.eqb_spec k 2) as [->|K2]; [|contradiction].
+    destruct (hmsg b); [right; left; split; [astc; reflexivity|auto]|exfalso; apply Hn; astc; reflexivity].
+  - destruct (Z.eqb_spec (hph b) 2) as [Hp|Hp]; [|contradiction].
+    destruct (I11 ltac:(lia)) as [T _]. right; right. split; [auto|]. right; left. split; [astc; reflexivity|auto].
   - destruct (q b); [contradiction|]. destruct (lbopen b); cbn in Hn; contradiction.
   - contradiction.
 Qed.
+
+Theorem tf_exits : forall l o, let b := brun stB0 l in ast b = 3 -> ast (bstep b o) <> 3 ->
+  (ast (bstep b o) = 0 /\ (o = BTimer \/ o = BReset)) \/ (ast (bstep b o) = 4 /\ (o = BShutdown \/ o = BClose)).
+Proof.
+  intros l o b H3 Hn. destruct (tf_exits_inv b o (brun_inv l _ stB0_inv) H3 Hn) as [E|[E|[Hm _]]]; auto.
+  unfold hmanaged, b in Hm. rewrite brun_hcf in Hm. discriminate.
+Qed.
+Theorem tf_exits_health : forall h l o, let b := brun (stBi h) l in ast b = 3 -> ast (bstep b o) <> 3 ->
+  (ast (bstep b o) = 0 /\ (o = BTimer \/ o = BReset)) \/ (ast (bstep b o) = 4 /\ (o = BShutdown \/ o = BClose)) \/
+  (hmanaged b = true /\
+   ((ast (bstep b o) = 2 /\ (o = BHealth 1 \/ o = BHealth 3)) \/
+    (ast (bstep b o) = 1 /\ (o = BHealth 2 \/ o = BHBackoff)) \/
+    (ast (bstep b o) = 0 /\ exists g, o = BServerClose g))).
+Proof. intros h l o b. apply tf_exits_inv, brun_inv, stBi_inv. Qed.
 
 (* an address update while the sub-channel is backing off (or IDLE, or SHUTDOWN) changes
    nothing that is reported: the back-off is not cut short *)
@@ -464,13 +722,15 @@ Theorem upd_addrs_not_connecting : forall b fresh, ast b = 3 \/ ast b = 0 \/ ast
   bstep b (BUpdAddrs fresh) = b.
 Proof.
   intros b fresh H. cbn [bstep]. destruct fresh; [|reflexivity].
-  destruct (Z.eqb_spec (ast b) 2); [lia|reflexivity].
+  destruct (Z.eqb_spec (ast b) 2); [lia|]. destruct (Z.eqb_spec (ast b) 1); [lia|reflexivity].
 Qed.
 
-Theorem shutdown_is_final : forall l o, let b := brun stB0 l in ast b = 4 -> ast (bstep b o) = 4.
+Lemma shutdown_final_inv : forall b o, invB b -> ast b = 4 -> ast (bstep b o) = 4.
 Proof.
-  intros l o b H4. pose proof (brun_inv l _ stB0_inv) as (I1&I2&I3&I4&I5&_). fold b in I1, I2, I3, I4, I5.
-  destruct (I4 H4) as [P0 T]. destruct o; cbn [bstep].
+  intros b o (I1&I2&I3&I4&I5&I6&I7&I8&I9&I10&I11&I12) H4.
+  destruct (I4 H4) as [P0 T].
+  assert (Hp : hph b = 0) by (destruct (Z.eq_dec (hph b) 0) as [E|E]; [exact E|destruct (I11 E); congruence]).
+  destruct o; cbn [bstep].
   - rewrite H4. cbn. exact H4.
   - rewrite P0. exact H4.
   - rewrite T. exact H4.
@@ -479,28 +739,83 @@ Proof.
   - destruct (ccclosed b); [exact H4|]. cbn. apply teardown_ast.
   - rewrite P0. exact H4.
   - destruct fresh; [|exact H4]. rewrite H4. cbn. exact H4.
+  - rewrite Hp. exact H4.
+  - rewrite Hp. exact H4.
   - destruct (q b); [exact H4|]. destruct (lbopen b); exact H4.
   - exact H4.
 Qed.
+Theorem shutdown_is_final : forall h l o, let b := brun (stBi h) l in ast b = 4 -> ast (bstep b o) = 4.
+Proof. intros h l o b. apply shutdown_final_inv, brun_inv, stBi_inv. Qed.
 
-Theorem ready_only_from_connecting : forall l o, let b := brun stB0 l in
-  ast b <> 2 -> ast (bstep b o) = 2 -> ast b = 1 /\ o = BDial true.
+(* "reaches READY only from CONNECTING": by a successful dial when no health checking is
+   configured; with health checking, by the checker's report SERVING / Unimplemented, from
+   CONNECTING or - the deviation - from TRANSIENT_FAILURE *)
+Lemma ready_from_inv : forall b o, invB b -> ast b <> 2 -> ast (bstep b o) = 2 ->
+  (ast b = 1 /\ o = BDial true /\ hcf b = false) \/
+  (hmanaged b = true /\ (ast b = 1 \/ ast b = 3) /\ (o = BHealth 1 \/ o = BHealth 3)).
 Proof.
-  intros l o b Hn H2. pose proof (brun_inv l _ stB0_inv) as (I1&I2&I3&I4&I5&_). fold b in I1, I2, I3, I4, I5.
+  intros b o (I1&I2&I3&I4&I5&I6&I7&I8&I9&I10&I11&I12) Hn H2.
   destruct o; cbn [bstep] in H2.
-  - destruct ((ast b =? 0) && (phase b =? 0)); [|contradiction]. unfold set_phase, emit in H2; cbn in H2.
-    destruct (ast b =? 1); cbn in H2; lia.
-  - destruct (Z.eqb_spec (phase b) 1) as [P|P]; [|contradiction]. split; [auto|]. destruct ok; [reflexivity|].
-    unfold set_phase, emit in H2; cbn in H2. destruct (ast b =? 3); cbn in H2; lia.
-  - destruct (tr b && negb (ast b =? 4)); [|contradiction]. unfold emit in H2; cbn in H2. destruct (ast b =? 0) eqn:E; cbn in H2; [apply Z.eqb_eq in E|]; lia.
-  - destruct (phase b =? 2); [|contradiction]. unfold set_phase, emit in H2; cbn in H2. destruct (ast b =? 0) eqn:E; cbn in H2; [apply Z.eqb_eq in E|]; lia.
+  - destruct ((ast b =? 0) && (phase b =? 0)); [|contradiction]. revert H2. astc. lia.
+  - destruct (Z.eqb_spec (phase b) 1) as [P|P]; [|contradiction]. destruct ok.
+    + destruct (hcf b) eqn:Hh; [revert H2; astc; intro; contradiction|]. left. auto.
+    + revert H2. astc. lia.
+  - destruct (tr b && negb (ast b =? 4)); [|contradiction]. revert H2. astc. lia.
+  - destruct (phase b =? 2); [|contradiction]. revert H2. astc. lia.
   - rewrite teardown_ast in H2. lia.
   - destruct (ccclosed b); [contradiction|]. cbn in H2. rewrite teardown_ast in H2. lia.
-  - destruct (phase b =? 2); [|contradiction]. unfold set_phase, emit in H2; cbn in H2. destruct (ast b =? 0) eqn:E; cbn in H2; [apply Z.eqb_eq in E|]; lia.
-  - destruct fresh; [|contradiction]. destruct (Z.eqb_spec (ast b) 2); [contradiction|]. contradiction.
+  - destruct (phase b =? 2); [|contradiction]. revert H2. astc. lia.
+  - destruct fresh; [|contradiction]. destruct ((ast b =? 2) || (ast b =? 1)); [|contradiction]. revert H2. astc. lia.
+  - destruct (Z.eqb_spec (hph b) 1) as [Hp|Hp]; [|contradiction].
+    destruct (I11 ltac:(lia)) as [T Hh]. destruct (I5 T) as [_ A]. rewrite Hh in A.
+    right. split; [unfold hmanaged; rewrite T, Hh; reflexivity|]. split; [lia|].
+    destruct (Z.eqb_spec k 1) as [->|K1]; [auto|].
+    destruct (Z.eqb_spec k 0) as [->|K0]; [revert H2; astc; lia|].
+    destruct (Z.eqb_spec k 3) as [->|K3]; [auto|].
+    destruct (Z.eqb_spec k 2) as [->|K2]; [|contradiction].
+    destruct (hmsg b); revert H2; astc; lia.
+  - destruct (hph b =? 2); [|contradiction]. revert H2. astc. lia.
   - destruct (q b); [contradiction|]. destruct (lbopen b); cbn in H2; contradiction.
   - contradiction.
 Qed.
+Theorem ready_only_from_connecting : forall l o, let b := brun stB0 l in
+  ast b <> 2 -> ast (bstep b o) = 2 -> ast b = 1 /\ o = BDial true.
+Proof.
+  intros l o b Hn H2. destruct (ready_from_inv b o (brun_inv l _ stB0_inv) Hn H2) as [(A&B&_)|(Hm&_)]; [auto|].
+  unfold hmanaged, b in Hm. rewrite brun_hcf in Hm. discriminate.
+Qed.
+Theorem ready_from_health : forall h l o, let b := brun (stBi h) l in
+  ast b <> 2 -> ast (bstep b o) = 2 ->
+  (ast b = 1 /\ o = BDial true /\ hcf b = false) \/
+  (hmanaged b = true /\ (ast b = 1 \/ ast b = 3) /\ (o = BHealth 1 \/ o = BHealth 3)).
+Proof. intros h l o b. apply ready_from_inv, brun_inv, stBi_inv. Qed.
+
+(* GOAWAY or a lost connection: a READY sub-channel goes IDLE, drops its transport and stops
+   its health checker; both events are the same step; a second one changes nothing *)
+Theorem server_close_ready_to_idle : forall h l g, let b := brun (stBi h) l in
+  ast b = 2 -> let b' := bstep b (BServerClose g) in
+  ast b' = 0 /\ tr b' = false /\ hph b' = 0 /\ bstep b' (BServerClose g) = b' /\ bstep b (BServerClose g) = bstep b (BServerClose (negb g)).
+Proof.
+  intros h l g b H2 b'. destruct (brun_inv l _ (stBi_inv h)) as (_&_&_&_&_&_&_&_&_&_&_&I12). fold b in I12.
+  unfold b'. cbn [bstep]. rewrite (I12 H2), H2. cbn [Z.eqb Pos.eqb negb andb].
+  unfold emit, kill_h, set_tr, set_h. cbn [ast]. rewrite H2. cbn. repeat split; reflexivity.
+Qed.
+
+(* the health checker's reports are dropped once its transport is gone *)
+Theorem health_report_dropped_without_checker : forall b k, hph b = 0 -> bstep b (BHealth k) = b /\ bstep b BHBackoff = b.
+Proof. intros b k H. cbn [bstep]. rewrite H. split; reflexivity. Qed.
+Theorem no_checker_without_transport : forall h l, let b := brun (stBi h) l in hph b <> 0 -> tr b = true /\ hcf b = true.
+Proof. intros h l b. destruct (brun_inv l _ (stBi_inv h)) as (_&_&_&_&_&_&_&_&_&_&I11&_). exact I11. Qed.
+
+(* NOTE (client-side health checking is outside the event kinds C30 quantifies over; gRFC A17
+   behaviour): a health-managed sub-channel reaches READY from TRANSIENT_FAILURE, and leaves
+   TRANSIENT_FAILURE to CONNECTING *)
+Theorem health_tf_to_ready_note : exists l, let b := brun (stBi true) l in
+  ast b = 3 /\ ast (bstep b (BHealth 1)) = 2 /\ hist (bstep b (BHealth 1)) = [1; 3; 2].
+Proof. exists [BConnect; BDial true; BHealth 0]. vm_compute. repeat split; reflexivity. Qed.
+Theorem health_tf_to_connecting_note : exists l, let b := brun (stBi true) l in
+  ast b = 3 /\ ast (bstep b BHBackoff) = 1.
+Proof. exists [BConnect; BDial true; BHealth 2]. vm_compute. split; reflexivity. Qed.
 
 (* ================= bridge: clauses hold on model traces ================= *)
 Lemma all2_id : forall f l, (forall x, In x l -> f x (ph x) = true) -> all2 f l (map ph l) = true.
@@ -672,95 +987,12 @@ Proof.
   destruct (q b); [exact H|]. apply IH. apply (bstep_inv b BDeliver H).
 Qed.
 
-Definition newl (b b' : stB) : list Z := if ast b' =? ast b then [] else [ast b'].
-
-Lemma emit_new : forall b s, hist (emit b s) = hist b ++ newl b (emit b s) /\ q (emit b s) = q b ++ newl b (emit b s) /\
-  dl (emit b s) = dl b /\ lbopen (emit b s) = lbopen b.
-Proof.
-  intros b s. unfold emit, newl. destruct (Z.eqb_spec (ast b) s) as [E|E].
-  - rewrite Z.eqb_refl, !app_nil_r. auto.
-  - cbn. destruct (Z.eqb_spec s (ast b)); [congruence|]. auto.
-Qed.
-
-(* one non-deliver step emits at most one update: the new state, if it changed *)
-Lemma bstep_new : forall b o, o <> BDeliver ->
-  hist (bstep b o) = hist b ++ newl b (bstep b o) /\ dl (bstep b o) = dl b /\
-  (lbopen (bstep b o) = true -> q (bstep b o) = q b ++ newl b (bstep b o) /\ lbopen b = true) /\
-  (lbopen b = false -> lbopen (bstep b o) = false).
-Proof.
-  intros b o Ho.
-  assert (Hid : hist b = hist b ++ newl b b /\ dl b = dl b /\
-                (lbopen b = true -> q b = q b ++ newl b b /\ lbopen b = true) /\ (lbopen b = false -> lbopen b = false)).
-  { unfold newl. rewrite Z.eqb_refl, !app_nil_r. auto. }
-  assert (Hem : forall t s ph', let b' := set_phase (emit (set_tr b t) s) ph' in
-            hist b' = hist b ++ newl b b' /\ dl b' = dl b /\
-            (lbopen b' = true -> q b' = q b ++ newl b b' /\ lbopen b = true) /\ (lbopen b = false -> lbopen b' = false)).
-  { intros t s ph'. destruct (emit_new (set_tr b t) s) as (E1&E2&E3&E4). cbn [set_phase hist dl q lbopen ast].
-    unfold newl in *. cbn [set_tr ast hist q dl lbopen] in *. rewrite E1, E2, E3, E4. auto. }
-  destruct o; cbn [bstep]; try exact Hid; try congruence.
-  - destruct ((ast b =? 0) && (phase b =? 0)); [|exact Hid].
-    replace (emit b 1) with (emit (set_tr b (tr b)) 1) by (destruct b; reflexivity). apply Hem.
-  - destruct (phase b =? 1); [|exact Hid]. destruct ok; [apply Hem|].
-    replace (emit b 3) with (emit (set_tr b (tr b)) 3) by (destruct b; reflexivity). apply Hem.
-  - destruct (tr b && negb (ast b =? 4)); [|exact Hid].
-    replace (emit (set_tr b false) 0) with (set_phase (emit (set_tr b false) 0) (phase b))
-      by (unfold emit, set_phase; cbn; destruct (ast b =? 0); reflexivity). apply Hem.
-  - destruct (phase b =? 2); [|exact Hid].
-    replace (emit b 0) with (emit (set_tr b (tr b)) 0) by (destruct b; reflexivity). apply Hem.
-  - unfold teardown. destruct (ast b =? 4); [exact Hid|apply Hem].
-  - destruct (ccclosed b); [exact Hid|].
-    assert (Ht : hist (teardown b) = hist b ++ newl b (teardown b) /\ dl (teardown b) = dl b).
-    { unfold teardown. destruct (ast b =? 4) eqn:E; [unfold newl; rewrite Z.eqb_refl, app_nil_r; auto|].
-      destruct (Hem false 4 0) as (A&B&_). auto. }
-    destruct Ht as [T1 T2]. cbn [hist dl lbopen q ast]. unfold newl in *. cbn [ast]. rewrite T1, T2.
-    split; [reflexivity|]. split; [reflexivity|]. split; intros; [discriminate|reflexivity].
-  - destruct (phase b =? 2); [|exact Hid].
-    replace (emit b 0) with (emit (set_tr b (tr b)) 0) by (destruct b; reflexivity). apply Hem.
-  - destruct fresh; [|exact Hid]. destruct (ast b =? 2); [apply Hem|exact Hid].
-Qed.
-
 Lemma decB_not_deliver : forall op, decB op <> BDeliver.
 Proof.
   intro op. unfold decB.
   repeat match goal with
          | |- context [match ?x with _ => _ end] => destruct x
          end; discriminate.
-Qed.
-
-Lemma tf_exits_inv : forall b o, invB b -> ast b = 3 -> ast (bstep b o) <> 3 ->
-  (ast (bstep b o) = 0 /\ (o = BTimer \/ o = BReset)) \/ (ast (bstep b o) = 4 /\ (o = BShutdown \/ o = BClose)).
-Proof.
-  intros b o (I1&I2&I3&I4&I5&I6&I7&I8&I9&I10) H3 Hn.
-  destruct o; cbn [bstep] in *.
-  - rewrite H3 in Hn. cbn in Hn. contradiction.
-  - destruct (Z.eqb_spec (phase b) 1) as [P|P]; [apply I1 in P; lia|contradiction].
-  - destruct (tr b) eqn:T; [specialize (I5 eq_refl); lia|]. cbn in Hn. contradiction.
-  - destruct (Z.eqb_spec (phase b) 2) as [P|P]; [|contradiction]. left. split; [|auto].
-    unfold set_phase, emit; cbn. rewrite H3. reflexivity.
-  - right. split; [apply teardown_ast|auto].
-  - right. destruct (ccclosed b) eqn:Hc; [destruct (I10 eq_refl) as (_&_&?); lia|]. split; [|auto].
-    cbn. apply teardown_ast.
-  - destruct (Z.eqb_spec (phase b) 2) as [P|P]; [|contradiction]. left. split; [|auto].
-    unfold set_phase, emit; cbn. rewrite H3. reflexivity.
-  - destruct fresh; [|contradiction]. rewrite H3 in Hn. cbn in Hn. contradiction.
-  - destruct (q b); [contradiction|]. destruct (lbopen b); cbn in Hn; contradiction.
-  - contradiction.
-Qed.
-
-Lemma shutdown_final_inv : forall b o, invB b -> ast b = 4 -> ast (bstep b o) = 4.
-Proof.
-  intros b o (I1&I2&I3&I4&I5&_) H4.
-  destruct (I4 H4) as [P0 T]. destruct o; cbn [bstep].
-  - rewrite H4. cbn. exact H4.
-  - rewrite P0. exact H4.
-  - rewrite T. exact H4.
-  - rewrite P0. exact H4.
-  - apply teardown_ast.
-  - destruct (ccclosed b); [exact H4|]. cbn. apply teardown_ast.
-  - rewrite P0. exact H4.
-  - destruct fresh; [|exact H4]. rewrite H4. cbn. exact H4.
-  - destruct (q b); [exact H4|]. destruct (lbopen b); exact H4.
-  - exact H4.
 Qed.
 
 Lemma skipn_app_len : forall (a b : list Z), skipn (length a) (a ++ b) = b.
@@ -777,65 +1009,56 @@ Proof. intro b. unfold teardown. destruct (ast b =? 4); [reflexivity|]. cbn. rew
 Lemma bstep_lbopen : forall b o, o <> BDeliver -> (o = BClose -> ccclosed b = true) ->
   lbopen (bstep b o) = lbopen b.
 Proof.
-  intros b o Hd Hc. destruct o; cbn [bstep]; try reflexivity; try congruence.
-  - destruct ((ast b =? 0) && (phase b =? 0)); [|reflexivity]. cbn. apply emit_lbopen.
-  - destruct (phase b =? 1); [|reflexivity]. destruct ok; cbn; rewrite emit_lbopen; reflexivity.
-  - destruct (tr b && negb (ast b =? 4)); [|reflexivity]. rewrite emit_lbopen. reflexivity.
-  - destruct (phase b =? 2); [|reflexivity]. cbn. apply emit_lbopen.
-  - apply teardown_lbopen.
-  - rewrite (Hc eq_refl). reflexivity.
-  - destruct (phase b =? 2); [|reflexivity]. cbn. apply emit_lbopen.
-  - destruct fresh; [|reflexivity]. destruct (ast b =? 2); [|reflexivity]. cbn. rewrite emit_lbopen. reflexivity.
+  intros b o Hd Hc. destruct o; cbn [bstep]; try reflexivity; try congruence;
+    try (rewrite (Hc eq_refl); reflexivity); try apply teardown_lbopen;
+    repeat match goal with |- context [if ?c then _ else _] => destruct c end;
+    cbn [set_phase set_h set_tr kill_h lbopen]; rewrite ?emit_lbopen; cbn [set_phase set_h set_tr kill_h lbopen]; rewrite ?emit_lbopen;
+    reflexivity.
 Qed.
 
 Lemma stepB_facts : forall b op, invB b -> q b = [] -> let b0 := bstep b (decB op) in let b1 := stepB b op in
   invB b1 /\ q b1 = [] /\ ast b1 = ast b0 /\ lbopen b1 = lbopen b0 /\ ccclosed b1 = ccclosed b0 /\
-  dl b1 = dl b ++ (if lbopen b0 then newl b b0 else []).
+  exists e, dl b1 = dl b ++ (if lbopen b0 then e else []) /\ stepfacts b b0 (decB op) e.
 Proof.
-  intros b op Hi Hq b0 b1. pose proof (bstep_new b (decB op) (decB_not_deliver op)) as (N1&N2&N3&N4). fold b0 in N1, N2, N3, N4.
+  intros b op Hi Hq b0 b1. destruct (bstep_sound b (decB op) Hi (decB_not_deliver op)) as [_ (e & Hf)]. fold b0 in Hf.
+  pose proof Hf as (N1&N2&N3&N4&_).
   unfold b1, stepB. fold b0.
   destruct (drain_facts (S (length (q b0))) b0) as (D1&D2&D3&D4&D5&D6); [lia|].
   split; [apply drain_inv, bstep_inv, Hi|]. split; [exact D1|]. split; [exact D2|]. split; [exact D3|]. split; [exact D4|].
+  exists e. split; [|exact Hf].
   rewrite D6, N2. destruct (lbopen b0) eqn:Ho; [|reflexivity]. destruct (N3 eq_refl) as [Q _]. rewrite Q, Hq. reflexivity.
 Qed.
 
 Lemma clausesB_step : forall b op, invB b -> q b = [] ->
   forallb (fun c => snd c) (clausesB_op b op (obsB b (stepB b op))) = true.
 Proof.
-  intros b op Hi Hq. destruct (stepB_facts b op Hi Hq) as (Hi1&Hq1&Ha&Ho&Hc&Hd).
+  intros b op Hi Hq. destruct (stepB_facts b op Hi Hq) as (Hi1&Hq1&Ha&Ho&Hc&(e&Hd&Hf)).
   set (b0 := bstep b (decB op)) in *. set (b1 := stepB b op) in *.
-  set (d := if lbopen b0 then newl b b0 else []) in *.
+  set (d := if lbopen b0 then e else []) in *.
+  destruct Hf as (F1&F2&F3&F4&F5&F6&F7).
   unfold clausesB_op, obsB. rewrite Hd, skipn_app_len.
   replace (Z.of_nat (length d) <? 0) with false by (symmetry; apply Z.ltb_ge; lia).
   rewrite Nat2Z.id, take_n_app.
-  pose proof Hi as (I1&I2&I3&I4&I5&I6&I7&I8&I9&I10).
-  pose proof Hi1 as (J1&J2&J3&J4&J5&J6&J7&J8&J9&J10).
-  cbn [forallb snd]. rewrite andb_true_r.
+  pose proof Hi as (I1&I2&I3&I4&I5&I6&I7&I8&I9&I10&I11&I12).
+  pose proof Hi1 as (J1&J2&J3&J4&J5&J6&J7&J8&J9&J10&J11&J12).
+  cbn [forallb fst snd]. rewrite andb_true_r.
+  (* when something is delivered, the wrapper was open and the last delivered state is ac.state *)
+  assert (Hprev : lbopen b0 = true -> last (dl b) 0 = ast b).
+  { intro Hob. destruct (F3 Hob) as [_ Hb]. rewrite I9, <- (I6 Hb), Hq, app_nil_r. reflexivity. }
   (* nothing leaves SHUTDOWN *)
   assert (H5 : (if (ast b =? 4) || mem 4 d then ast b1 =? 4 else true) = true).
   { destruct (Z.eqb_spec (ast b) 4) as [E4|E4]; cbn [orb].
     - apply Z.eqb_eq. rewrite Ha. apply shutdown_final_inv; assumption.
     - destruct (mem 4 d) eqn:Hm; [|reflexivity]. apply Z.eqb_eq. rewrite Ha.
-      unfold d in Hm. destruct (lbopen b0); [|discriminate]. unfold newl in Hm.
-      destruct (ast b0 =? ast b); [discriminate|]. unfold mem in Hm. cbn [existsb] in Hm. rewrite orb_false_r in Hm.
-      apply Z.eqb_eq in Hm. symmetry. exact Hm. }
+      unfold d in Hm. destruct (lbopen b0); [|discriminate]. rewrite F5. eapply chainR_mem4_last; eauto. }
   rewrite H5, andb_true_r.
-  (* delivered so far is a chain *)
-  assert (Hch : chain_ok (last (dl b) 0) d = true).
-  { destruct J7 as [rest Hr]. rewrite Hr, Hd, chain_ok_split in J8. apply andb_prop in J8. destruct J8 as [J8 _].
-    rewrite chain_ok_split in J8. apply andb_prop in J8. tauto. }
-  unfold last_or. rewrite Hch. cbn [andb].
-  apply andb_true_intro. split; [|apply andb_true_intro; split].
-  - (* IDLE after TF only when the back-off ended *)
-    destruct (Z.eqb_spec (last (dl b) 0) 3) as [P3|P3]; cbn [andb]; [|reflexivity].
-    destruct d as [|[|p|p] d'] eqn:Ed; try reflexivity.
-    unfold d in Ed. destruct (lbopen b0) eqn:Hob; [|discriminate].
-    destruct (bstep_new b (decB op) (decB_not_deliver op)) as (_&_&N3&_). fold b0 in N3. destruct (N3 Hob) as [_ Hb].
-    assert (A3 : ast b = 3). { rewrite I9, <- (I6 Hb), Hq, app_nil_r. exact P3. }
-    unfold newl in Ed. destruct (Z.eqb_spec (ast b0) (ast b)) as [E|E]; [discriminate|]. inversion Ed as [[E0 E1]].
-    assert (Hn3 : ast (bstep b (decB op)) <> 3) by (fold b0; lia).
-    destruct (tf_exits_inv b (decB op) Hi A3 Hn3) as [[_ [Eo|Eo]]|[E4 _]]; [rewrite Eo; reflexivity|rewrite Eo; reflexivity|].
-    unfold b0 in E0. lia.
+  unfold last_or.
+  assert (H3 : chain_okR (hmanaged b) (last (dl b) 0) d && idle_rule (hmanaged b) (last (dl b) 0) d (decB op) = true).
+  { unfold d. destruct (lbopen b0) eqn:Hob.
+    - rewrite (Hprev eq_refl), F6, F7. reflexivity.
+    - cbn. unfold idle_rule. rewrite andb_false_r. reflexivity. }
+  rewrite H3. cbn [andb].
+  apply andb_true_intro. split.
   - destruct (lbopen b && negb match decB op with BClose => negb (ccclosed b) | _ => false end) eqn:Hcond; [|reflexivity].
     apply andb_prop in Hcond. destruct Hcond as [Hb Hcl].
     assert (Hob : lbopen b0 = true).
@@ -845,14 +1068,16 @@ Proof.
   - fold b0. destruct (ccclosed b0) eqn:Hcc; [|reflexivity]. destruct (J10 Hc) as (C&_). apply Z.eqb_eq, C.
 Qed.
 
-Lemma walkA_exec : forall ops a, invA a -> forallb (fun c => snd c) (walkA a ops (execA a ops)) = true.
+Lemma walkA_exec : forall ops a, invA a ->
+  forallb (fun c => snd c) (walkA a ops (execA a ops)) = true.
 Proof.
   induction ops as [|op ops IH]; intros a Hi; [reflexivity|].
-  cbn [execA walkA]. rewrite forallb_app, (clausesA_step a op Hi), word_eqb_refl. cbn [andb].
-  apply IH. apply arun_inv, Hi.
+  cbn [execA walkA]. rewrite forallb_app, word_eqb_refl.
+  rewrite (clausesA_step a op Hi). cbn [andb]. apply IH. apply arun_inv, Hi.
 Qed.
 
-Lemma walkB_exec : forall ops b, invB b -> q b = [] -> forallb (fun c => snd c) (walkB b ops (execB b ops)) = true.
+Lemma walkB_exec : forall ops b, invB b -> q b = [] ->
+  forallb (fun c => snd c) (walkB b ops (execB b ops)) = true.
 Proof.
   induction ops as [|op ops IH]; intros b Hi Hq; [reflexivity|].
   cbn [execB walkB]. rewrite forallb_app, (clausesB_step b op Hi Hq), word_eqb_refl. cbn [andb].
@@ -863,6 +1088,7 @@ Definition cfg_wf (cfg : word) : bool :=
   match cfg with
   | [0; n] => (0 <=? n) && (n <=? 6)
   | [1] => true
+  | [1; h] => (h =? 0) || (h =? 1)
   | _ => false
   end.
 
@@ -873,7 +1099,21 @@ Proof.
   destruct cfg as [|k [|n [|x r]]]; try discriminate.
   - destruct k as [|p|p]; try discriminate. destruct p as [p|p|]; try discriminate; try (destruct p; discriminate).
     eexists. split; [reflexivity|]. apply walkB_exec; [apply stB0_inv|reflexivity].
-  - destruct k as [|p|p]; try discriminate; try (destruct p; discriminate).
-    cbn in Hw. rewrite Hw. eexists. split; [reflexivity|]. apply walkA_exec. apply (initA_inv (Z.to_nat n)).
+  - destruct k as [|p|p]; try discriminate.
+    + cbn in Hw. rewrite Hw. eexists. split; [reflexivity|]. apply walkA_exec. apply (initA_inv (Z.to_nat n)).
+    + destruct p as [p|p|]; try discriminate; try (destruct p; discriminate).
+      cbn in Hw. rewrite Hw. eexists. split; [reflexivity|]. apply walkB_exec; [apply stBi_inv|reflexivity].
   - cbn in Hw. destruct k as [|p|p]; try discriminate; destruct p as [p|p|]; try discriminate; destruct p; discriminate.
+Qed.
+
+(* NOTE: the health-managed history the driver replays on the real code as case 9 (NOT_SERVING then
+   SERVING: the LB policy receives CONNECTING, TRANSIENT_FAILURE, READY) is a model trace on
+   which every clause holds - health checking is outside C30's quantifier, the extended
+   relation of clause 3 accepts gRFC A17 transitions while the checker manages the state *)
+Theorem health_managed_transitions_note : exists cfg ops obs, cfg_wf cfg = true /\
+  run cfg ops = Some obs /\ holds_b cfg ops obs = true /\ all_fails (clauses cfg ops obs) = [] /\
+  obs = [[1;1;1;1;0]; [0;1;1;1]; [1;3;3;3;1]; [1;2;2;2;1]].
+Proof.
+  exists [1; 1], [[1]; [2; 1]; [10; 0]; [10; 1]], [[1;1;1;1;0]; [0;1;1;1]; [1;3;3;3;1]; [1;2;2;2;1]].
+  vm_compute. repeat split; reflexivity.
 Qed.
